@@ -43,12 +43,16 @@ def build(shape):
     if shape == 'chain':
         A = type('A', (R,), {}); B = type('B', (A,), {}); C = type('C', (B,), {})
         return R, [A, B, C]
+    if shape == 'abstract':
+        # classes that declare themselves abstract are classes like any other for the namespace
+        A = type('A', (R,), {'_A__abstract': True}); B = type('B', (A,), {}); C = type('C', (B,), {'_C__abstract': True})
+        return R, [A, B, C]
     if shape == 'fan':
         A = type('A', (R,), {}); B = type('B', (R,), {}); C = type('C', (A,), {}); D = type('D', (B,), {})
         return R, [A, B, C, D]
     A = type('A', (R,), {}); B = type('B', (R,), {}); D = type('D', (A, B), {}); E = type('E', (D,), {})
     return R, [A, B, D, E]
-for shape in ('chain', 'fan', 'diamond'):
+for shape in ('chain', 'abstract', 'fan', 'diamond'):
     n = len(build(shape)[1])
     for mask in range(2 ** n):
         for how in ('add', 'assign-parameter', 'class-set-on-first-child'):
@@ -83,6 +87,32 @@ for shape in ('chain', 'fan', 'diamond'):
                     if 'w' not in c.param:
                         bad.append('%s, %s, then class N defined below %s and used, then w added to the root: %s.param does not list w although %s.w works'
                                    % (shape, how, parent.__name__, c.__name__, c.__name__))
+# instances: a namespace read before the class changed is rebuilt afterwards, whatever the instance holds
+for copies, how in itertools.product(('none', 'read-item', 'instance-set', 'watch'), ('add', 'class-set-on-child')):
+    R, below = build('chain')
+    K = below[1]
+    inst = K()
+    if copies == 'read-item':
+        inst.param['x']
+    elif copies == 'instance-set':
+        inst.x = 2
+    elif copies == 'watch':
+        inst.param.watch(lambda e: None, 'x')
+    inst.param.values(); repr(inst); list(inst.param.objects('existing'))
+    if how == 'add':
+        R.param.add_parameter('z', param.Number(7))
+        for view, names in (('values()', list(inst.param.values())), ("objects('existing')", list(inst.param.objects('existing'))),
+                            ('repr', ['z'] if 'z=' in repr(inst) else []), ('serialization', list(__import__('json').loads(inst.param.serialize_parameters())))):
+            if 'z' not in names:
+                bad.append('instance (%s) whose namespace was read before z was added to the root class: %s does not list z although inst.z works' % (copies, view))
+    else:
+        below[0].x = 3
+        own = below[0].param['x']
+        shown = inst.param.objects('existing')['x']
+        if copies in ('none',) and shown is not own:
+            bad.append('instance (%s) read before an ancestor got its own copy of x: objects(existing)[x] is not the Parameter that governs the class now' % copies)
+        if copies == 'none' and inst.param.values()['x'] != inst.x:
+            bad.append('instance (%s): values()[x] == %r but inst.x == %r' % (copies, inst.param.values()['x'], inst.x))
 if bad:
     print('REPRODUCED: ' + bad[0]); sys.exit(1)
 print('NOT-REPRODUCED'); sys.exit(0)
@@ -104,13 +134,21 @@ def clear_cache_contract():
         I.lib["$value_method"] = vmethod
 
         def descendents(I, st, fv, args, kwargs, ctx):
-            r = I.alloc_list(st, holder["D"])
+            # descendents(cls): the class and ALL its subclasses.  Any further argument (concrete=True
+            # leaves out the classes flagged abstract) yields some OTHER list, about which nothing is known
+            extra = [a for a in args[1:] if not (isinstance(a, Conc) and a.py is False)] + \
+                    [v for k, v in kwargs.items() if not (k == "concrete" and isinstance(v, Conc) and v.py is False)]
+            if len(args) < 1 or extra or not (isinstance(args[0], Ref) and args[0] == holder["mcs"]):
+                r = I.alloc_list(st, I.U.fresh_seq("some_other_selection_of_classes"))
+            else:
+                r = I.alloc_list(st, holder["D"])
             return [(st, r)]
         I.contracts["descendents"] = descendents
 
     def setup(I, st):
         U = I.U
         mcs = I.alloc_obj(st, "ParameterizedMetaclass", lazy=True, label="mcs")
+        holder["mcs"] = mcs
         holder["D"] = U.fresh_seq("descendents")
         holder["c"] = U.fresh("some_class")
         st.ghost["cleared"] = z3.K(vm.V, False)
